@@ -1,7 +1,7 @@
 """CPU time of CParser().parse on each text of a JSON list read from stdin (fresh parser per text, after a warm-up parse).
 Run in a subprocess by the C16 check; prints a JSON list of [CPU seconds (-1 for a text that is not accepted, -2 for a parse
 that uses more than CAP seconds of CPU time, -3 for a text skipped after two such parses), number of Python-level and C-level function calls - a deterministic cost]."""
-import json, os, signal, sys, time
+import gc, json, os, signal, sys, time
 CAP = float(os.environ.get("VERIF_PARSE_CPU_CAP", "25"))
 
 
@@ -22,7 +22,11 @@ c_parser.CParser().parse("int warm = 1; void f(void){ switch (warm) { case 1: br
 out = []
 sys.setrecursionlimit(20000)
 over = 0
+# the cyclic garbage collector's full collections walk every live object: with hundreds of thousands of AST nodes alive that
+# alone is super-linear and depends on the allocation history - it is the interpreter's cost, not the parser's: switched off
+gc.disable()
 for t in texts:
+    gc.collect()
     noprof, runs = False, 2
     if isinstance(t, dict):
         t, noprof, runs = t["t"], bool(t.get("noprof")), int(t.get("runs", 2))
